@@ -22,7 +22,7 @@ func u(x uint64) *big.Int { return new(big.Int).SetUint64(x) }
 // a remainder held by others (rest) and the supply record; invariant M1: b1+b2+rest == supply over Z.
 func newMtEnv() *mtEnv {
 	e := &mtEnv{vEnv: newVEnv(types.StoreKey, 10)}
-	e.k = Keeper{storeKey: e.key, cdc: e.cdc}
+	e.k = NewKeeper(e.cdc, e.key)
 	e.owner, e.alice, e.bob = vAddr(1), vAddr(2), vAddr(3)
 	e.denomID, e.mtID = "denom1", "mt1"
 	e.k.SetDenom(e.ctx, types.Denom{Id: e.denomID, Name: "class", Owner: e.owner.String()})
